@@ -63,7 +63,7 @@ class MinimizerIMinuit(MinimizerBase):
         else:
             self._save_state_dict["par_err"] = np.array(self._par_err)
         self._save_state_dict["fmin_struct"] = deepcopy(self._fmin_struct)
-        self._save_state_dict["minimizer_param_dict"] = self._minimizer_param_dict
+        self._save_state_dict["minimizer_param_dict"] = dict(self._minimizer_param_dict)  # a copy: excursions write into the live one
         self._save_state_dict["iminuit"] = self.__iminuit
         super(MinimizerIMinuit, self)._save_state()
 
@@ -76,7 +76,7 @@ class MinimizerIMinuit(MinimizerBase):
         if self._par_err is not None:
             self._par_err = np.array(self._par_err)
         self._fmin_struct = deepcopy(self._save_state_dict["fmin_struct"])
-        self._minimizer_param_dict = self._save_state_dict["minimizer_param_dict"]
+        self._minimizer_param_dict = dict(self._save_state_dict["minimizer_param_dict"])
         self.__iminuit = self._save_state_dict["iminuit"]
         self._func_handle(*self.parameter_values)  # call the function to propagate the changes to the nexus
         super(MinimizerIMinuit, self)._load_state()
